@@ -113,7 +113,7 @@ align 16
 	add	src, 128
 	vptestmb k1, zmm0, zmm0
 	kmovq	tmp0, k1
-	add	tmp1, tmp0 ; for macrofusion.
+	or	tmp1, tmp0 ; not add: 1 + an all-ones mask would wrap to zero
 	jz	.mem_z_loop
 
 align 16
